@@ -498,8 +498,8 @@ MUTANTS += [
     dict(prop="C11", name="graph-histogram-keeps-first", file=CG,
          old="    return ((histogram_a[0]+histogram_b[0]), histogram_a[1])", new="    return (np.maximum(histogram_a[0], histogram_b[0]), histogram_a[1])"),
     dict(prop="C11", name="trailing-empty-chromosomes-dropped (seeded C11-a)", file=GC,
-         old="            else:\n                group = dataclass.empty()\n            seen.append(name)",
-         new="            else:\n                if next_name is None and seen_group:\n                    return\n                group = dataclass.empty()\n            seen.append(name)"),
+         old="                group = template[:0] if template is not None else dataclass.empty()\n            seen.append(name)",
+         new="                if next_name is None and seen_group:\n                    return\n                group = template[:0] if template is not None else dataclass.empty()\n            seen.append(name)"),
 ]
 
 MS = "bionumpy/streams/multistream.py"
@@ -520,7 +520,8 @@ MUTANTS += [
     dict(prop="C12", name="ignored-groups-counted-as-data", file=GC,
          old="            if name in self._ignored:\n                continue", new="            if name in self._ignored and len(self._ignored) > 1:\n                continue"),
     dict(prop="C12", name="empty-table-for-wrong-contig", file=GC,
-         old="            else:\n                group = dataclass.empty()", new="            else:\n                group = dataclass.empty() if next_name is None or i > 0 else next_group"),
+         old="                group = template[:0] if template is not None else dataclass.empty()",
+         new="                group = (template[:0] if template is not None else dataclass.empty()) if next_name is None or i > 0 else next_group"),
 ]
 
 BDC = "bionumpy/bnpdataclass/bnpdataclass.py"
